@@ -166,7 +166,10 @@ def check_static(case, workdir):
     cmirun.write_case(workdir, case)
     run = cmirun.run(workdir, ["--params", "params.yml", "--task-based-rhd", "--threads", "1",
                                "--number-of-steps", "1"],
-                     {"CMI_VERIF_TABLES": "exit"}, timeout=120)
+                     {"CMI_VERIF_TABLES": "exit"}, timeout=600, cpu_limit=60)
+    if run["timeout"] and not run["cpu_exceeded"]:
+        r.inconclusive = "wall-clock limit hit without exhausting the CPU budget"
+        return r
     if run["timeout"] or run["rc"] != 0:
         return r.fail("program did not reach the task tables: rc=%s timeout=%s\n%s" % (
             run["rc"], run["timeout"], run["out"][-600:]))
@@ -276,18 +279,22 @@ def check_dynamic(case, workdir):
         env["CMI_VERIF_JITTER"] = case["jitter"]
     run = cmirun.run(workdir, ["--params", "params.yml", "--task-based-rhd", "--threads",
                                str(case["threads"]), "--number-of-steps", str(nsteps)],
-                     env, timeout=case.get("timeout", 40))
+                     env, timeout=600, cpu_limit=60)
     n = case["nsub"][0] * case["nsub"][1] * case["nsub"][2]
     if case["threads"] >= 2:
         r.label("multi-threaded")
     if any(case["periodic"][ax] and case["nsub"][ax] <= 2 for ax in range(3)):
         r.label("periodic-short-axis")
-    if run["timeout"]:
+    if run["cpu_exceeded"]:
         in_step = "Starting hydro step" in run["out"]
         if in_step:
-            return r.fail("hydro step did not terminate within %d s (normal: < 1 s); last output: %s" % (
-                case.get("timeout", 40), run["out"][-200:].replace("\n", " | ")))
-        r.inconclusive = "timeout outside a hydro step"
+            r.schedule_dependent = case["threads"] > 1
+            return r.fail("hydro step did not terminate: 60 s of CPU time used up (a normal run needs < 1 s); last output: %s" % (
+                run["out"][-200:].replace("\n", " | ")))
+        r.inconclusive = "CPU budget used up outside a hydro step"
+        return r
+    if run["timeout"]:
+        r.inconclusive = "wall-clock limit hit without exhausting the CPU budget (machine overloaded?)"
         return r
     if run["rc"] != 0:
         return r.fail("run failed: rc=%s: %s" % (run["rc"], run["out"][-500:].replace("\n", " | ")))
